@@ -153,7 +153,7 @@ static sqf::runtime::runtime::result execute_do(sqf::runtime::runtime& runtime, 
 
         auto instruction = frame.current();
         if (runtime.configuration().max_runtime != std::chrono::milliseconds::zero() &&
-            runtime.configuration().max_runtime + runtime.runtime_timestamp() < std::chrono::system_clock::now())
+            runtime.configuration().max_runtime + runtime.run_timestamp() < std::chrono::system_clock::now())
         {
 #ifdef DF__SQF_RUNTIME__ASSEMBLY_DEBUG_ON_EXECUTE
             std::cout << "\x1B[33m[ASSEMBLY ASSERT]\033[0m" <<
@@ -297,6 +297,7 @@ sqf::runtime::runtime::result sqf::runtime::runtime::execute(sqf::runtime::runti
         if (m_run_atomic.compare_exchange_weak(expected, true, std::memory_order::memory_order_seq_cst, std::memory_order::memory_order_seq_cst))
         {
             m_is_exit_requested = false;
+            m_run_timestamp = std::chrono::system_clock::now();
             m_is_halt_requested = false;
             auto scopeNum = m_context_active->frames_size() - 1;
             m_state = state::running;
@@ -351,6 +352,7 @@ sqf::runtime::runtime::result sqf::runtime::runtime::execute(sqf::runtime::runti
         if (m_run_atomic.compare_exchange_weak(expected, true, std::memory_order::memory_order_seq_cst, std::memory_order::memory_order_seq_cst))
         {
             m_is_exit_requested = false;
+            m_run_timestamp = std::chrono::system_clock::now();
             m_is_halt_requested = false;
             m_state = state::running;
             while (!m_contexts.empty())
@@ -462,6 +464,7 @@ sqf::runtime::runtime::result sqf::runtime::runtime::execute(sqf::runtime::runti
         if (m_run_atomic.compare_exchange_weak(expected, true, std::memory_order::memory_order_seq_cst, std::memory_order::memory_order_seq_cst))
         {
             m_is_exit_requested = false;
+            m_run_timestamp = std::chrono::system_clock::now();
             m_is_halt_requested = false;
             m_state = state::running;
             res = execute_do(*this, 1);
@@ -502,6 +505,7 @@ sqf::runtime::runtime::result sqf::runtime::runtime::execute(sqf::runtime::runti
         if (m_run_atomic.compare_exchange_weak(expected, true, std::memory_order::memory_order_seq_cst, std::memory_order::memory_order_seq_cst))
         {
             m_is_exit_requested = false;
+            m_run_timestamp = std::chrono::system_clock::now();
             m_is_halt_requested = false;
             bool success;
             m_state = state::running;
